@@ -83,6 +83,7 @@ SPEC = {
                  "C04_mem_get_returns_a_private_copy", "C04_extended_realm_is_a_private_copy", "C04_withRealm_keeps_the_callers_slice",
                  "C04_batch_keeps_private_key_copies", "C04_mem_commit_stores_copies", "C04_iterate_keys_hands_out_copies",
                  "C04_iterate_hands_out_key_and_value_copies", "C04_mem_stored_data_evolves_by_value",
+                 "C04_mem_step_refines_value_model", "C04_mem_refines_value_model",
                  "C04_wrapper_model_is_the_source_flushkv", "C04_wrapper_model_is_the_source_debug", "C04_wrapper_constructors_text",
                  "C04_trace_model_is_sem",
                  "C04_mapdb_model_is_the_source", "C04_mapdb_batch_model_is_the_source", "C04_mapdb_constructor_text",
@@ -170,7 +171,10 @@ SPEC = {
                 "C04_store_never_writes_existing_buffers, C04_private_buffers_are_frozen, C04_mem_caller_writes_do_not_reach_the_store, "
                 "C04_mem_keyed_calls_read_their_buffers_at_call_time, C04_mem_get_returns_a_private_copy, C04_batch_keeps_private_key_copies, "
                 "C04_mem_commit_stores_copies, C04_iterate_keys_hands_out_copies, C04_iterate_hands_out_key_and_value_copies, "
-                "C04_extended_realm_is_a_private_copy, C04_withRealm_keeps_the_callers_slice (the code keeps that slice; outside the statement); "
+                "C04_extended_realm_is_a_private_copy, C04_withRealm_keeps_the_callers_slice (the code keeps that slice; outside the statement), "
+                "C04_mem_stored_data_evolves_by_value, and the simulation C04_mem_step_refines_value_model / C04_mem_refines_value_model: while no "
+                "caller write hits a buffer a live view or pending batch still references, every request of the memory model is the value-model "
+                "request with the arguments as the buffers read at the call, with corresponding answers (chain: memory model -> value model -> spec); "
                 "Go oracles caller-write-changed-stored-data, caller-buffer-changed, batch-commit-contract. (3) nil vs empty slices for keys, "
                 "prefixes, realms, values on every call incl. batches; C04_has_iff_get_iff_iterated (Has <=> Get succeeds <=> the iterations "
                 "report the key, zero-length keys and values included).",
@@ -183,5 +187,6 @@ SPEC = {
     },
     "assumptions": ["sequential use (C05 covers concurrent use)",
                     "for the value-level theorems only: a batch's value buffers are not mutated while the batch may still be committed and realm "
-                    "buffers passed to WithRealm are not mutated (the memory model KVMem and the memory stream cover both)"],
+                    "buffers passed to WithRealm are not mutated - this is the hypothesis `Safe` of C04_mem_refines_value_model, under which the "
+                    "memory model (which covers both, and is driven by the memory stream) is proved to simulate the value model"],
 }
